@@ -14,6 +14,8 @@ mod output;
 mod parser;
 mod shortcuts;
 pub mod syntax_kind;
+#[cfg(oq3_verif)]
+pub mod verif;
 
 // FIXME
 // #[cfg(test)]
